@@ -45,6 +45,14 @@ def generate(rng, tier):
                "mask": rng.choice([False, False, True, True, "allfalse"]), "unc": rng.choice([None, "std", "std", "var", "unknown"]),
                "unit": rng.choice([None, "ct", "ct"]), "pre": rng.choice([None, None, "slice", "rebin"]),
                "nsteps": rng.choice([2, 3, 4, 5, 6, 6]), "seed": rng.randrange(10**6), "nans": rng.random() < 0.3}
+    # systematic: cubes whose mask is an array without a single True, with NaNs in the data and an uncertainty -
+    # the combination in which an operation that fills in a mask of its own is tempted to write into the caller's
+    for i in range(40 if tier == "quick" else 600):
+        nd = rng.choice([1, 2, 2, 3])
+        shape = [rng.choice([2, 3, 4, 4]) for _ in range(nd)]
+        yield {"root": "cube", "shape": shape, "fam": rng.choice([f for f in FAMILIES if f != "radec"]), "wseed": rng.randrange(10**6),
+               "ecs": [], "mask": "allfalse", "unc": ["std", "var"][i % 2], "unit": rng.choice([None, "ct"]), "pre": None,
+               "nsteps": 6, "seed": rng.randrange(10**6), "nans": True}
 
 
 # ------------------------------------------------------------------ construction
